@@ -110,6 +110,12 @@ fn abstract_state<M: Machine>(s: &Slot<M>) -> u32 {
 /// Executes `events` on a fresh world. Returns the first violation (if any) and coverage.
 /// `final_check`: after the last event every live slot is checked with the full oracle.
 pub fn exec<M: Machine>(tr: &Trace, stats: &mut Stats) -> (Option<Violation>, Reach) {
+    exec_probe::<M>(tr, stats, None)
+}
+
+/// Like `exec`; additionally records the Debug fingerprint of the queried slot at every Query
+/// event (Engine B compares them with what its threads computed / observed).
+pub fn exec_probe<M: Machine>(tr: &Trace, stats: &mut Stats, mut probe: Option<&mut Vec<String>>) -> (Option<Violation>, Reach) {
     let tapes = [tr.tapes[0].materialize(), tr.tapes[1].materialize()];
     let mut w = World::<M>::new(tapes);
     let mut reach = Reach::default();
@@ -143,6 +149,9 @@ pub fn exec<M: Machine>(tr: &Trace, stats: &mut Stats) -> (Option<Violation>, Re
             }
         }
         if let Event::Query { a, confs } = ev {
+            if let Some(p) = probe.as_deref_mut() {
+                p.push(w.get(*a).map(|s| M::fingerprint(&s.st)).unwrap_or_else(|| "<no such slot>".into()));
+            }
             let cfg = CheckCfg { prop, confs, exact_data: tr.exact_data };
             if let Some(v) = check_slot::<M>(&w, *a, cfg, stats) {
                 return (Some(v), reach);
